@@ -146,6 +146,18 @@ pub fn gen_world(seed: u64, idx: u64, s: &dyn SuiteOps, mode: usize) -> World {
     for o in ops { b.push(o); }
     states.push((l.sst, None));
 
+    // a client that was handed an ALTERED response (the genuine one followed by its own first
+    // byte / first 32 bytes): it must refuse, so no finalization exists and the server session
+    // must not complete (seeded change R8C03-B: response decoder ignoring trailing bytes)
+    {
+        let (l, mut ops) = b.login_ops(&mut g, setup, Some(r2.record), &pw2, &pw2, &cred2, None, None, WIds::default(), WIds::default(), ksf.clone(), false);
+        let extra = if g.chance(1, 2) { 1 } else { 32 };
+        if let Some(Op::LoginFinish { resp, .. }) = ops.get_mut(2) {
+            *resp = Ref::Splice { kind: crate::suite::Kind::CredResp, parts: vec![crate::world::Part { id: l.resp, from: 0, to: usize::MAX }, crate::world::Part { id: l.resp, from: 0, to: extra }] };
+        }
+        for o in ops { b.push(o); }
+    }
+
     // phase 1 run: learn the genuine bytes
     let r = crate::world::run_world(&b.w);
     let ops_snapshot = b.w.ops.clone();
